@@ -84,6 +84,38 @@ class ComputeTypeVisitor(Visitor.DefaultVisitor):
         stmt.AcceptVisitor(self, ctx)
         ctx.pop()
 
+    def _ValidateConstructorArguments(self, expr):
+        """The arguments of a constructor must provide exactly the components
+        of the constructed type: scalars and vectors adding up to the size of
+        a vector, one row vector per matrix row, a single scalar for a scalar.
+        """
+        targetType = expr.GetType()
+        argumentTypes = [argument.GetType() for argument in expr.GetArguments()]
+
+        def IsScalarOrVector(t):
+            return t.IsPrimitive() and (t.IsScalar() or t.IsVector())
+
+        def ComponentCount(t):
+            return t.GetComponentCount() if t.IsVector() else 1
+
+        valid = all(isinstance(t, types.Type) for t in argumentTypes)
+        if valid and targetType.IsMatrix():
+            valid = len(argumentTypes) == targetType.GetRowCount() and all(
+                t.IsPrimitive()
+                and t.IsVector()
+                and t.GetComponentCount() == targetType.GetColumnCount()
+                for t in argumentTypes
+            )
+        elif valid:
+            valid = all(IsScalarOrVector(t) for t in argumentTypes) and sum(
+                ComponentCount(t) for t in argumentTypes
+            ) == ComponentCount(targetType)
+
+        if not valid:
+            Errors.ERROR_INVALID_CONSTRUCTOR_ARGUMENTS.Raise(
+                targetType, ", ".join(str(t) for t in argumentTypes)
+            )
+
     def _GetClassScopeForMemberAccess(self, expr, scope):
         return scope.GetFieldType(expr.GetMemberAccess().GetParent().GetName())
 
@@ -160,7 +192,9 @@ class ComputeTypeVisitor(Visitor.DefaultVisitor):
             # during the walking up, we can compute the expression
             # type as well
 
-            if isinstance(expr, ast.CallExpression):
+            if isinstance(expr, ast.ConstructPrimitiveExpression):
+                self._ValidateConstructorArguments(expr)
+            elif isinstance(expr, ast.CallExpression):
                 # As we know the parameter types now, we can finally resolve
                 # overloaded functions
                 expr.ResolveType(scope)
